@@ -106,6 +106,38 @@ MODULE = Module(fields={"_dryrun": BOOL, "was_cached": BOOL},
                 enums={"CacheResult": ["CSE", "SINGLE", "ULTIMATE", "MISS"], "CacheScope": ["NONE", "CSE", "BACKEND"], "CacheCheckValid": ["FULL", "SHALLOW"]},
                 classes={"self": "Scheduler", "job": "Job"}, contracts=contracts)
 VERIFY = ["Scheduler._get_cache", "Scheduler._reject_job_main_thread", "Scheduler._exec_job_main_thread", "Scheduler._done_job_main_thread"]
+
+
+def rejection_handler_sites(tier, seed):
+    """the places where a promise rejection is intercepted (then(f, g), catch(g)) are exactly the ones whose handling is under contract or part of
+    the documented error-handling tasks; a rejection handler anywhere else can turn a failure into a value"""
+    import ast
+    from pvc import extract
+    allowed = {"redun/promise.py:Promise.catch", "redun/promise.py:wait_promises", "redun/promise.py:Promise.all", "redun/promise.py:Promise.then.wrap_callback.wrapper",
+               "redun/scheduler.py:catch", "redun/scheduler.py:Job.collapse", "redun/scheduler.py:Scheduler._evaluate_async_main_thread", "redun/scheduler.py:Scheduler._done_job_main_thread"}
+    found = []
+    for rel in extract.all_repo_files():
+        tree, src = extract.parse_file(rel)
+        if ".then(" not in src and ".catch(" not in src:
+            continue
+        enc = frame_scan._enclosing(tree)
+        for x in ast.walk(tree):
+            if isinstance(x, ast.Call) and isinstance(x.func, ast.Attribute) and (
+                    (x.func.attr == "then" and (len(x.args) >= 2 or any(k.arg in ("rejector", "reject") or k.arg is None for k in x.keywords) or any(isinstance(a, ast.Starred) for a in x.args)))
+                    or x.func.attr == "catch"):
+                found.append((f"{rel}:{enc.get(id(x), '?')}", x.lineno, ast.unparse(x)[:70].replace("\n", " ")))
+    bad = [f for f in found if f[0] not in allowed]
+    return [Result("C12/call-sites[rejection handlers]", "frame", "proved" if not bad else "refuted", "(package scan)", bad[0][1] if bad else 0, solver="frame_scan",
+                   detail={"sites": [f"{a}:L{b}" for a, b, _ in found], "unexpected": [f"{a}:L{b} {c}" for a, b, c in bad], "stage": 0})]
+
+
+def bounded_failures(tier, seed):
+    from pvc import bounded
+    return [bounded.run("C12", "failing-workflows", rule="failing leaves at depth 0..2 in containers (two executions each: never replayed), an unpicklable error, and a failing expression used twice in one job "
+                        "with none / one / both uses guarded by catch: run() raises exactly the task's error unless every use is guarded; jobs on the failing path recorded FAILED")]
+
+
+EXTRA_CHECKS = [rejection_handler_sites, bounded_failures]
 EXPECTED_MIN_OBLIGATIONS = 15
 TRUSTED = ["A-LOG", "A-QUEUE", "promise chaining (C13 contracts)"]
 ASSUMPTIONS = [
